@@ -1,5 +1,6 @@
 import Ecal.Drivers.Util
 import Ecal.Model.Interp
+import Ecal.Model.InterpImpl
 import Ecal.Model.Lexer
 /-!
 Driver of C14. Payload (space separated):
@@ -10,7 +11,7 @@ otherwise ids joined by `.`) obtained by evaluating that expression **alone**
 in the real interpreter. Result: `<output-hex> <log>`.
 -/
 namespace Ecal.Drv.C14
-open Ecal.Drv Ecal.Interp
+open Ecal.Drv Ecal.Interp Ecal.InterpImpl
 
 structure Entry where
   code : List Nat
@@ -62,8 +63,35 @@ def lexCase (src : List Nat) : String :=
   let isStr := toks.any fun t => t.id = Ecal.Lex.tSTRING
   ",".intercalate (toks.map show1) ++ (if isStr then "\tnt=1" else "")
 
+/-- ST: the expressions of one literal share a scope: `v` global (0 at the start), `w` defined by the literal's
+    own expressions. State = (v, w, log). -/
+structure StState where
+  v : Nat
+  w : Option Nat
+  log : List String
+
+def stEv (asg und : List Nat) (st : StState) (c : List Nat) : List Nat × StState :=
+  if c = strBytes "v := v + 1" then (asg, { st with v := st.v + 1 })
+  else if c = strBytes "v" then (strBytes (toString st.v), st)
+  else if c = strBytes "x.cnt(v)" then (strBytes ("c" ++ toString st.v), { st with log := st.log ++ [toString st.v] })
+  else if c = strBytes "w := v" then (asg, { st with w := some st.v })
+  else if c = strBytes "w" then ((match st.w with | some k => strBytes (toString k) | none => und), st)
+  else (strBytes "MISSING", st)
+
+def stCase (lit asg und : List Nat) : String :=
+  match impl (stEv asg und) { v := 0, w := none, log := [] } lit with
+  | Out.ok out st =>
+    hexEnc out ++ " " ++ (if st.log.isEmpty then "-" else ".".intercalate st.log) ++ " v=" ++ toString st.v
+      ++ (if (evaluated lit).isEmpty then "" else "\tnt=1")
+  | Out.panic => "PANIC slice bounds out of range"
+  | Out.outOfFuel => "HANG"
+
 def runCase (payload : String) : String :=
   match payload.splitOn " " with
+  | ["ST", _src, lit, asg, und] =>
+    match hexDecode lit, hexDecode asg, hexDecode und with
+    | some lit, some asg, some und => stCase lit asg und
+    | _, _, _ => "bad-payload"
   | ["LEX", src] =>
     match hexDecode src with
     | some b => lexCase b
@@ -86,11 +114,16 @@ def runCase (payload : String) : String :=
         match cs.find? (fun c => (lookup tab c).isNone) with
         | some c => "MISSING:" ++ hexEnc c
         | none =>
-          let ev := fun c => match lookup tab c with | some e => e.repl | none => []
-          let out := evalLiteral true ev lit
-          let log := cs.flatMap fun c => match lookup tab c with | some e => e.log | none => []
-          hexEnc out ++ " " ++ (if log.isEmpty then "-" else ".".intercalate log)
-            ++ (if cs.isEmpty then "" else "\tnt=1")
+          -- the Go-shaped loop (Ecal.InterpImpl: indices, slices, fuel) with a STATEFUL evaluator: the state is
+          -- the side-effect log; `impl_refines_spec` proves this equals the fold over the segmentation
+          let evS : List String → List Nat → List Nat × List String := fun lg c =>
+            match lookup tab c with | some e => (e.repl, lg ++ e.log) | none => ([], lg)
+          match impl evS [] lit with
+          | Out.ok out log =>
+            hexEnc out ++ " " ++ (if log.isEmpty then "-" else ".".intercalate log)
+              ++ (if cs.isEmpty then "" else "\tnt=1")
+          | Out.panic => "PANIC slice bounds out of range"
+          | Out.outOfFuel => "HANG"
     | _, _ => "bad-payload"
   | _ => "bad-payload"
 
